@@ -196,6 +196,7 @@ class Zeroconf(QuietLogger):
         self._notify_futures: Set[asyncio.Future] = set()
         # Goodbye broadcasts of services that were unregistered one by one
         self._goodbye_tasks: Set[asyncio.Future] = set()
+        self._probing_services: Set[ServiceInfo] = set()
         self.loop: Optional[asyncio.AbstractEventLoop] = None
         self._loop_thread: Optional[threading.Thread] = None
 
@@ -350,8 +351,15 @@ class Zeroconf(QuietLogger):
 
         info.set_server_if_missing()
         await self.async_wait_for_start()
-        await self.async_check_service(info, allow_name_change, cooperating_responders, strict)
-        self.registry.async_add(info)
+        self._probing_services.add(info)
+        try:
+            await self.async_check_service(info, allow_name_change, cooperating_responders, strict)
+            if info in self._probing_services:
+                self.registry.async_add(info)
+            # else: unregistered while it was being probed - its goodbyes are
+            # on their way, it must not be registered and announced after them
+        finally:
+            self._probing_services.discard(info)
         return asyncio.ensure_future(self._async_broadcast_service(info, _REGISTER_TIME, None))
 
     def update_service(self, info: ServiceInfo) -> None:
@@ -497,6 +505,9 @@ class Zeroconf(QuietLogger):
         """Unregister a service."""
         info.set_server_if_missing()
         self.registry.async_remove(info)
+        # A registration of this service that is still probing is given up
+        for probing in [i for i in self._probing_services if i is info or i.key == info.key]:
+            self._probing_services.discard(probing)
         # If another server uses the same addresses, we do not want to send
         # goodbye packets for the address records
 
